@@ -60,7 +60,7 @@ impl Property for C08 {
     }
     fn strategy(&self, tier: Tier) -> BoxedStrategy<Case> {
         let n = tier.pick(9usize, 14usize);
-        (prop_oneof![2 => 0u8..10, 1 => 10u8..18], proptest::collection::vec(setgen(3), 1..5), proptest::collection::vec(step(), 0..=n), prop_oneof![6 => Just(0u8), 1 => 1u8..70])
+        (prop_oneof![2 => 0u8..10, 1 => 10u8..18, 1 => 18u8..36], proptest::collection::vec(setgen(3), 1..5), proptest::collection::vec(step(), 0..=n), prop_oneof![6 => Just(0u8), 1 => 1u8..70])
             .prop_map(|(retention, initial, steps, warmup_rotations)| Case { retention, initial, steps, warmup_rotations })
             .boxed()
     }
@@ -69,7 +69,14 @@ impl Property for C08 {
         let env = new_env();
         let retention = RETENTIONS[case.retention as usize % RETENTIONS.len()];
         let mut installed: Vec<BuiltSet> = case.initial.iter().enumerate().map(|(i, g)| g.build(i as u8)).collect();
-        let gw = deploy_gateway(&env, [9; 32], 0, retention, &installed).map_err(|e| format!("setup: {}", e))?;
+        // (derived from the retention byte: saved cases keep their format) a non-zero minimum rotation delay; the harness
+        // then lets exactly that long pass before every rotation, so every probe falls inside the delay window of the
+        // latest rotation: how long ago the last rotation was is none of the retention window's business
+        let delay: u64 = if case.retention as usize >= RETENTIONS.len() { 50 } else { 0 };
+        if delay > 0 {
+            cx.label("minimum_rotation_delay_nonzero");
+        }
+        let gw = deploy_gateway(&env, [9; 32], delay, retention, &installed).map_err(|e| format!("setup: {}", e))?;
         let mut model = SignerModel { retention, ..Default::default() };
         for b in &installed {
             model.install(b.hash());
@@ -181,6 +188,9 @@ impl Property for C08 {
         if case.warmup_rotations > 0 {
             for j in 0..case.warmup_rotations as u64 {
                 let newest = installed.last().unwrap().clone();
+                if delay > 0 {
+                    advance_time(&env, delay);
+                }
                 let cand = simple_set(3000 + j as u16);
                 let nh = newest.hash();
                 let proof = newest.proof(&env, &digest(&gw.domain, &nh, &cand.rotation_data_hash()), newest.full_mask());
@@ -203,6 +213,9 @@ impl Property for C08 {
                 days_passed += st.days_before as u32;
                 advance_ledgers(&env, st.days_before as u32 * 17280);
                 cx.label("days_pass_between_steps");
+            }
+            if delay > 0 {
+                advance_time(&env, delay);
             }
             let prover = installed[installed.len() - 1 - pick(st.prover, installed.len())].clone();
             let ph = prover.hash();
